@@ -959,6 +959,36 @@ def main(argv=None):
                          child='NK1' if got_seg != want_seg else frows[0][0], text=text, errors=errs[:6], segment='NK1',
                          edits=['NK1 min 2', '%s min 2' % (frows[0][0] if frows else None)],
                          expected=[want_seg, want_field], observed=[got_seg, got_field])
+    # ---- a profile that retypes a complex field as a base datatype: a standard-conforming value with components is not
+    # profile-conforming, and validate() says so (under TOLERANT the parser resets the datatype of such a field to None)
+    for v in S.VERSIONS:
+        lib = hl7apy.load_library(v)
+        ec = S.default_ec(v)
+        std = lib.MESSAGES['ADT_A01']
+        r3 = thaw(std)
+        prow = [row for row in r3[1] if row[0] == 'PID'][0]
+        frow = [fr for fr in prow[1][1] if fr[1][0] == 'sequence' and fr[0] == 'PID_5']
+        if not frow:
+            continue
+        fr = frow[0]
+        fr[1] = ['leaf', None, 'ST', fr[1][3] if len(fr[1]) > 3 else None, None, -1]
+        names = [n for n in c01.instance_names(std, 'req') if n not in ('MSH', 'PID')]
+        lines = [c01.msh_line('ADT_A01', v)] + [c01.canonical_line(rng, lib, ec, n) for n in names]
+        for val, bad in (('EVERYMAN^ADAM', True), ('EVERYMAN', False)):
+            text = '\r'.join(lines + ['PID|1||1||' + val])
+            dist['complex_to_base_profiles'] = dist.get('complex_to_base_profiles', 0) + 1
+            try:
+                errs = [str(e) for e in parse_message(text, validation_level=S.TOLERANT, message_profile={'ADT_A01': freeze(r3)}
+                                                      ).validate(return_errors=True).errors]
+            except HL7apyException as ex:
+                run.note('complex-to-base profile %s skipped: %r' % (v, ex))
+                continue
+            flagged = any('PID_5' in e for e in errs)
+            if flagged != bad:
+                run.fail('profile-datatype-not-enforced', 'validate() does not judge PID-5 by the base datatype the profile gives it '
+                         '(a value with components must be reported, a plain one must not)', version=v, structure='ADT_A01',
+                         child='PID_5', text=text, errors=[e for e in errs if 'PID' in e][:5], segment='PID',
+                         edits=['PID_5 XPN -> ST'], value=val)
     # ---- a profile that constrains ONE of two same-named components (the same datatype at two positions of a segment)
     def twin_fields(seg_ref):
         """(field row a, field row b, component name): two fields of one complex datatype that has a complex component"""
